@@ -8,6 +8,7 @@ Metamorphic oracle (no hand-written mapping table): for every value x and serial
   (4) the mapping facts the statement names: tuple/set -> list under json and msgpack, bytes -> base64 dict under serpent.
 Level 1 drives the codec pairs (dumpsCall/loadsCall vs dumps/loads); level 2 a real daemon through Proxy, BatchProxy and a
 streamed result, with COMPRESSION on and off and payloads straddling the 100-byte threshold."""
+import contextlib
 import threading
 
 from vlib import core, gen, fixture
@@ -223,7 +224,19 @@ def check_wire(fx, svc, name, x, is_core, pad, rec, seq):
     fx.daemon.reply_annotations = {"SRVR": b"s%d" % seq} if annotated else None
     if annotated:
         rec.count("wire_with_annotations")
-    with fx.proxy("echo", serializer=name) as p:
+    if seq % 3 == 0:
+        # one long-lived proxy whose serializer is switched between calls (a documented per-proxy setting): each call travels in the
+        # serializer selected for it
+        live = getattr(fx, "live_proxy", None)
+        if live is None:
+            live = fx.live_proxy = fx.proxy("echo", serializer="serpent")
+            live._pyroBind()
+        live._pyroSerializer = name
+        pctx = contextlib.nullcontext(live)
+        rec.count("wire_serializer_switched_on_live_proxy")
+    else:
+        pctx = fx.proxy("echo", serializer=name)
+    with pctx as p:
         res = outcome(lambda: p.echo(key, sent, kw=sent))
         with svc.lock:
             recv = svc.received.pop(key, None)
@@ -301,6 +314,12 @@ def check_wire(fx, svc, name, x, is_core, pad, rec, seq):
     if recv is None or is_raised(res) or is_raised(bat) or is_raised(strm):
         rec.violation("arg-result-mapping-differs-on-wire:%s" % name, "%s: value %s accepted as a result but: echo=%s batch=%s stream=%s" % (
             name, core.short(x, 200), show(res), show(bat), show(strm)), pay)
+        return
+    # ... and it is the mapping of the serializer that was selected for the call
+    want = outcome(lambda: P.serializers.serializers[name].loads(P.serializers.serializers[name].dumps(sent)))
+    if not is_raised(want) and not gen.deep_eq(got, want):
+        rec.violation("wire-mapping-is-not-the-selected-serializers:%s" % name, "%s selected for the call: value %s arrives as %s, the %s codec maps it to %s" % (
+            name, core.short(sent, 200), core.short(got, 200), name, core.short(want, 200)), pay)
         return
     a, kw = recv
     for label, o in (("positional argument", a[0]), ("keyword argument", kw.get("kw")), ("echoed result", res[0]), ("batch result", bat[0]),
